@@ -228,7 +228,7 @@ func runC03A(t *testing.T, rng *rand.Rand, rec *sim.Rec, tier string, caseNo int
 		rec.FP("realm-with-capitals-or-blanks")
 	}
 	cfg := sim.Config{
-		Realm: realmCfg, Users: map[string]string{"alice": "pw-a", "bob": "pw-b"}, NoAuth: noAuth, EmptyUserID: emptyUID,
+		Realm: realmCfg, Users: map[string]string{"alice": "pw-a", "bob": "pw-b", "Alice": "pw-A2", "ALICE": "pw-A3"}, NoAuth: noAuth, EmptyUserID: emptyUID,
 		Lifetime: 26 * time.Hour, PermTimeout: 26 * time.Hour, ChanTimeout: 26 * time.Hour,
 		UDPListeners: []*net.UDPAddr{{IP: sim.ServerIP4, Port: 3478}},
 		TCPListeners: []*net.TCPAddr{{IP: sim.ServerIP4, Port: 3478}},
@@ -351,8 +351,15 @@ func runC03A(t *testing.T, rng *rand.Rand, rec *sim.Rec, tier string, caseNo int
 			cr.user = pick(rng, []string{"mallory", "alice", ""})
 			cr.rawKey = pick(rng, [][]byte{{}, make([]byte, 16), wire.LongTermKey("", "", "")})
 		case "other-user":
-			// bob's perfectly valid credentials on alice's 5-tuple
+			// bob's perfectly valid credentials on alice's 5-tuple - or those of an account whose
+			// name differs from alice's in capitals only (another user all the same)
 			cr.user, cr.pass = "bob", "pw-b"
+			switch rng.Intn(3) {
+			case 1:
+				cr.user, cr.pass = "Alice", "pw-A2"
+			case 2:
+				cr.user, cr.pass = "ALICE", "pw-A3"
+			}
 			if state == "no-allocation" && method == wire.MethodAllocate {
 				valid = true // a free 5-tuple may be allocated by any valid user
 			}
